@@ -162,6 +162,7 @@ class Sim:
         self.policy = policy or DefaultPolicy()
         self.trace_lines = trace_lines
         self.focus = None
+        self.on_stall = None
         self.sdk_probe = None
         self._probe_raised = set()
         self.sdk_src = sdk_src
@@ -387,12 +388,16 @@ class Sim:
         if self.overrides is not None:
             d = self.overrides.get(f"y{self.yields}")
             if d is not None:  # injected stall
+                if self.on_stall is not None:
+                    self.on_stall(cur, float(d))
                 self._sleep(cur, float(d), True, "stall")
                 return
         else:
             d = self.policy.stall(self, cur, kind)
             if d:
                 self.recorded[f"y{self.yields}"] = d
+                if self.on_stall is not None:
+                    self.on_stall(cur, d)
                 self._sleep(cur, d, True, "stall")
                 return
         self._switch(cur, kind)
